@@ -33,7 +33,7 @@ def sketch_probes():
 
 RING_SEGMENTS = (3, 4, 5, 6, 8, 12)
 JOINT_BRANCHES = (2, 3, 4, 5, 6)
-STACK_REPEATS = (2, 3)
+STACK_REPEATS = (2,)
 GRID_SIZES = ((1, 1), (2, 1), (1, 3), (2, 3), (3, 2))
 
 
